@@ -32,6 +32,7 @@ type VerifSnapshot[H Hash] struct {
 	PrepareSentTime    time.Time
 	RttAvg             time.Duration
 	RttIdx             int
+	RttOld             time.Duration // the sample the next addTime call overwrites
 	Cache              map[uint32]VerifInbox[H]
 }
 
@@ -63,6 +64,7 @@ func (d *DBFT[H]) VerifSnapshot() VerifSnapshot[H] {
 		PrepareSentTime:    d.prepareSentTime,
 		RttAvg:             d.rttEstimates.avg,
 		RttIdx:             d.rttEstimates.idx,
+		RttOld:             d.rttEstimates.times[d.rttEstimates.idx],
 		Cache:              make(map[uint32]VerifInbox[H], len(d.cache.mail)),
 	}
 	for h, in := range d.cache.mail {
